@@ -59,6 +59,39 @@ def cases(rng, tier, Case):
         for style, code in zip("AB", pair):
             cfg = (code + base) if where == "pre" else (base + code)
             res.append(Case("parse %s 100 R %s" % (cfg, hx(d)), "style" + style, {"g": g, "style": style, "src": hx(d), "cfg": cfg}))
+    # (c) a rule registered twice and removed: it is consulted neither for real nor in look-ahead (seed C16-10); reference
+    # history: the rule registered once and removed
+    TW = [("f", "F", "f", "a\n```\nb\n```\nc"), ("f", "f", "f", "- a\n~~~\nb"), ("F", "f", "f", "> a\n```\nb"), ("1", "1", "1", "a\n@@@\nb\n\n- c\n@@@"),
+          ("X", "X", "X", "a\n<div>\nb"), ("q", "q", "q", "a\n> b\n- c\n> d"), ("H", "H", "H", "a\n# b\n- c\n# d"), ("h", "h", "h", "a\n***\nb\n- c\n***"),
+          ("u", "u", "u", "a\n- b\n> c\n1. d"), ("1", "6", "1", "- a\n@@@\nb"), ("2", "7", "2", "> a\n@@@\nb"), ("c", "c", "c", "- a\n\n      b"), ("L", "L", "L", "a\n===\n- b\n---")]
+    for a1, a2, rm, d in TW:
+        for base in ("C", "CsW", "nebmliatp"):
+            first = a1 if a1 not in "fqhHucXL" or base == "nebmliatp" else ""     # C already holds these rules once
+            g = "tw" + a1 + a2 + rm + base + hx(d)
+            twice = "+%s;%s+%s;-%s;P%s" % (base, ("+" + first + ";") if first else "", a2, rm, hx(d))
+            once = "+%s;%s-%s;P%s" % (base, ("+" + first + ";") if first else "", rm, hx(d))
+            res.append(Case("hist 100 R %s" % once, "once", {"g": g, "style": "A", "src": hx(d), "cfg": base}))
+            res.append(Case("hist 100 R %s" % twice, "twice", {"g": g, "style": "T", "src": hx(d), "cfg": base}))
+    # (d) one inline token longer than 65535 bytes inside brackets that look-ahead walks more than once (seed C16-9: an
+    # extent memoised in 16 bits); oracle only (the extracted model is too slow at this size)
+    for size in ((65530, 65536, 70000) if tier == "quick" else (255, 256, 65530, 65535, 65536, 65537, 70000, 131072)):
+        for d, want in (("[ [ `" + "a" * size + "]b` ] ](/x)", ['<a href="/x">', "<code>"]), ("[x [y](u) `" + "a" * size + "` z](/v)", ['<a href="u">', "<code>"]),
+                        ("[[" + "a" * size + "]](/x)", ['<a href="/x">']), ("![[<http://a.b/" + "c" * size + ">]](/x) *e*", ['<img src="/x"', "<em>e</em>"]),
+                        ("[ [ " + "\\*" * (size // 2) + " ] ](/x)", ['<a href="/x">'])):
+            res.append(Case("parse CsW 100 RP %s" % hx(d), "probe", {"src": hx(d), "cfg": "CsW", "want": want}, compare=False))
+    # (e) a line that a terminator rule accepts in look-ahead at NEGATIVE indentation inside an item, but that is indented
+    # code once the item has ended (wide ordered markers): what look-ahead announced is not what parsing produces
+    # (known finding F16).  Controls: the same line indented less than four columns (a real block start) and the same
+    # line inside the item.
+    for mk in ("123456789. ", "1234567. ", "12345. ", "123456789) "):
+        w = len(mk)
+        for start, tagname in (("# b", "h1"), ("> b", "blockquote"), ("***", "hr"), ("- b", "ul"), ("```", "pre")):
+            for k in (4, 5, w - 1, 1, w):
+                if k >= w and k != w:
+                    continue
+                d = mk + "a\n" + " " * k + start
+                kind = "neg" if 4 <= k < w else ("ctl-out" if k < 4 else "ctl-in")
+                res.append(Case("parse CsW 100 RP %s" % hx(d), "negindent", {"src": hx(d), "cfg": "CsW", "style": "N", "kind": kind, "tag": tagname}))
     return res
 
 
@@ -73,13 +106,31 @@ def oracle(case, io, mo):
     if case.tag == "probe":
         pr = f.get("probe", "na")
         if pr == "na":
-            return None
+            pr = "0:0:"
         calls, bad, first = pr.split(":")
         if int(bad) > 0:
             return "look-ahead/real contradiction: " + unhx(first).decode("utf-8", "replace")
+        html = unhx(f["html"]).decode("utf-8", "replace")
+        for w in p.get("want", []):
+            if w not in html:
+                return "a construct that look-ahead walked over is not produced with the same extent: %s missing from the HTML" % w
+        return None
+    if p["style"] == "N":
+        html = unhx(f["html"]).decode("utf-8", "replace")
+        # what look-ahead announced must be what parsing produces: either the announced block, or -- when nothing may
+        # interrupt the paragraph -- a continuation line; never an indented code block made of the announced line
+        if p["kind"] == "neg" and "<pre><code> " in html:
+            return "NEGINDENT a %s announced by look-ahead inside the item is parsed as indented code after the item" % p["tag"]
+        if p["kind"] != "neg" and "<pre><code> " in html:
+            return "block start turned into indented code"
         return None
     if p["style"] == "A":
-        _a[p["g"]] = f["html"]
+        _a[p["g"]] = f["html"] if case.tag != "once" else project(io)[3:].split(";")[-1]
+        return None
+    if p["style"] == "T":
+        a = _a.get(p["g"])
+        if a is not None and a != project(io)[3:].split(";")[-1]:
+            return "a rule registered twice and removed still acts (the parse differs from that of a parser where it was registered once and removed)"
         return None
     a = _a.get(p["g"])
     if a is not None and a != f["html"]:
@@ -93,4 +144,4 @@ def nontrivial(case, io):
 
 
 def known_match(k, case, io, msg):
-    return k.get("class") == "label-backtick-lookahead" and False
+    return k.get("class") == "negative-indent-lookahead" and msg.startswith("NEGINDENT ")
